@@ -185,8 +185,11 @@ static zckDL *mk_dl(IN_dl *in, zckCtx *zck) {
 }
 /* the state invariant DL_STATE, evaluated by the harness on the objects it built (assumed, not asserted) */
 static int dl_state_ok(IN_dl *in, zckDL *dl) {
-    zckCtx *zck = dl->zck; zckChunk *t = dl->tgt_check;
-    if(t == NULL) return dl->write_in_chunk == 0;
+    zckCtx *zck = dl->zck; zckChunk *t = NULL;
+    if(dl->tgt_check == NULL) return dl->write_in_chunk == 0;
+    /* reach the chunk through the harness's own names (see the note at DL_STATE in contracts/dl_range.h) */
+    for(int i = 0; i < 3; i++) if(g_tg[i] != NULL && dl->tgt_check == g_tg[i]) t = g_tg[i];
+    if(t == NULL) return 0;
     g_off_t lo = (g_off_t)zck->data_offset + (g_off_t)t->start;
     return t->valid != 1 && dl->write_in_chunk <= t->comp_length && (dl->write_in_chunk == 0 || zck->check_chunk_hash.ctx != NULL) &&
         (zck->check_chunk_hash.ctx == NULL || (g_fpos[G_IX(zck->fd)] == lo + (g_off_t)(t->comp_length - dl->write_in_chunk) && (!in->watch_chunk_hash || g_hu_total == t->comp_length - dl->write_in_chunk)));
@@ -412,7 +415,7 @@ void h_clear_dl_regex(void) {
     zckDL *dl = in.dl_null ? NULL : mk_cb_dl(&in);
     clear_dl_regex(dl);
     V_ASSERT(dl == NULL || (dl->hdr_regex == NULL && dl->dl_regex == NULL && dl->end_regex == NULL), "C17.clear_dl_regex.no_pattern_pointer_survives");
-    V_COVER(dl != NULL && in.rx_state[0] && in.rx_state[1] && in.rx_state[2]); V_COVER(dl != NULL && !in.rx_state[0] && !in.rx_state[1] && in.rx_state[2]); V_COVER(dl == NULL);
+    V_COVER(dl != NULL && in.rx_state[0] && in.rx_state[1] && in.rx_state[2]); V_COVER(dl != NULL && !in.rx_state[0] && in.rx_state[1] && in.rx_state[2]); V_COVER(dl == NULL);
 }
 void h_zck_dl_reset(void) {
     IN_dl in = nondet_IN_dl();
